@@ -18,10 +18,10 @@ from vplib.common import VERIF
 
 MANIFEST = dict(
     category="proof",
-    text="Coq theorems about a re-entrant model of the executor's select machine (initialize_select, handle_select_continuation, process_select_sources, scan_mailbox_for_message, call_receive_function, handle_receive_result, complete_select, check_expired_timeouts, the notify_*/mark_active wake-ups; filters are an oracle consulted through the same two-entry protocol as the code): for EVERY history of steps and arrivals (messages, results, failures, wake-ups, arbitrary clock values) and every filter oracle, (1) an entry that completes the select completes with select_spec evaluated on the state at that entry — the first source in written order that is ready: a delivered awaited result, the earliest mailbox message of a receive source's type that its filter accepts, nil for a timeout whose (clamped) duration has elapsed since the select started waiting — and the mailbox afterwards is that entry's mailbox minus exactly the taken message, order preserved; (2) an entry that parks the process does so only when select_spec says Wait; an entry that calls a failing filter / meets an invalid source does so only when select_spec says Fail; (3) every message before a cursor is type-incompatible or was rejected by the filter; (4) the value never depends on a filter's own non-nil result; (5) a timeout never fires before its duration after the select's first entry (monotone clock); the machine never reaches an index panic. The failure of an awaited process is an asynchronous kill in the code (it pre-empts even a ready higher-priority source); the theorems state this explicitly rather than as priority. Await protocol of the environment (pending_awaits): refuted for the replacing code (F8), proved for the merging repair. Model tied to the code by differential execution against a real Executor after every operation; select_spec is additionally evaluated on the real outcomes.",
+    text="Coq theorems (15, all closed under the global context) about a re-entrant model of the executor's select machine (initialize_select, handle_select_continuation, ensure_select_start_time, process_select_sources, handle_select_timeout/process/receive, scan_mailbox_for_message, call_receive_function, handle_receive_result, complete_select, check_expired_timeouts, the notify_message/notify_result/mark_active wake-ups, the failure paths of Worker::notify_result and Executor::step; a filter is an oracle consulted through the same two-entry protocol as the code). For EVERY history of entries and arrivals (messages, results, failures, wake-ups; arbitrary clock values) and every filter oracle: (1) select_refines_spec: an entry that completes the select completes with select_spec evaluated on the state AT THAT ENTRY - the first source in written order that is ready: a delivered awaited result, the earliest mailbox message of a receive source's type that its filter accepts, nil for a timeout whose duration has elapsed since the select started waiting - and the mailbox afterwards is that entry's mailbox minus exactly the taken message, order preserved (untaken_preserved_in_order); (2) an entry parks the process only when select_spec says Wait; it fails the process only when select_spec says Fail, and a failing filter is only ever called at an entry whose select_spec is Fail; (3) cursor_skips_only_rejected: every message before a cursor is type-incompatible or rejected by the filter; (4) verdict_is_only_a_verdict: runs and spec are invariant under changing the non-nil values filters return; (5) timeout_not_early (monotone clock; durations outside i64 are clamped to 2^63-1 ms as in the code); (6) the machine never reaches an index panic. The failure of an awaited process is an asynchronous kill in the code (it pre-empts even a ready higher-priority source) and a failing filter cannot be pre-empted by a source that became ready while it ran: both are stated explicitly in props/C05.v, not as priority. Await protocol of the environment (pending_awaits): await_protocol_delivers_all proved for the merging code now in /repo (F8 fixed), refutation kept for the replacing code. F45 (a completed select keeps awaiting; a later failure kills): refuted for the code as it stands, completed_select_survives proved for the proposed repair. The model is tied to the code by differential execution against a real Executor after every operation of generated histories; select_spec (python reading AND the extracted Coq function) is additionally evaluated on the real pre-state of every completing/parking entry.",
     design_ref="§5 C05",
-    note="Trusted: Coq kernel, extraction, OCaml driver, Rust harness (plays the worker through the executor's public API; the failure of an awaited process is applied as worker.rs does), generators. Not modelled: the frame/instruction check against nested selects, refcounts (C06), the operand stack beyond the pushed value. eff_timeout clamps like the code (a timeout below -2^63 or above 2^63-1 ms is treated as 2^63-1 ms). F45 (stale await kills) and F8 (await answers replaced) are known findings until their repairs are committed; the model has a switch for either.",
-    technique="Coq proof (refinement of a spec by a re-entrant machine, invariant over all histories) + model/code correspondence by differential execution + spec-as-oracle on real outcomes + metamorphic twin runs",
+    note="Trusted: Coq kernel, extraction, OCaml driver, Rust harness qv_select (plays the worker through the executor's public API; the failure of an awaited process is applied as worker.rs does; --env drives the real Environment with fake worker handles), generators. Not modelled: the frame/instruction check against nested selects, refcounts (C06), the operand stack beyond the pushed value, the rest of the program around the select. Readiness of a process source means 'its result has been delivered to the awaiter' (awaiting[p] = Some): how and when results get delivered is the await protocol (F8 here; F72 under C03/C04). F45 is a known finding until its repair (hooks/fix_F45.patch) is committed: the model has a switch (fix45) and the check probes which behaviour the real code has.",
+    technique="Coq proof (refinement of a spec by a re-entrant machine via an invariant over all histories) + model/code correspondence by differential execution + spec-as-oracle on real outcomes + metamorphic twin runs + exhaustive small scope (thorough)",
 )
 
 ALL_T = "('int | 'bin | T['int])"
@@ -1056,16 +1056,20 @@ def run_env(ctx, qs, drv, cov):
             if first_lost is None:
                 first_lost = dict(case=_jsonable(c), real=r, lost_targets=missing)
     fixed8 = agree1 == len(cases) and lost == 0
-    cov["await_protocol"] = dict(cases=len(cases), real_agrees_with_replacing_model=agree0, real_agrees_with_merging_model=agree1,
-                                 histories_losing_an_answer_on_real_code=lost, real_code_merges=fixed8)
+    cov["await_protocol"] = dict(cases=len(cases), real_agrees_with_merging_model=agree1,
+                                 real_agrees_with_replacing_model_F8=agree0,
+                                 histories_losing_an_answer_on_real_code=lost, real_code_merges=fixed8,
+                                 must_pass_probe="w1:{p1:11,p3:-} w1:{p3:33} w0:{p2:-} of `! [p1, p3, p2]` (first case)")
     if not fixed8:
-        if agree0 != len(cases):
-            ctx.violation(dict(kind="correspondence-broken", correspondence="SelectSpec.v handle_process_results vs environment.rs",
-                               agree_replace=agree0, agree_merge=agree1, n=len(cases)), no_input=lost == 0)
+        # F8 is fixed in /repo (5c787ac): the real Environment must behave like the MERGING model
+        # (theorem C05_await_protocol_delivers_all); anything else is a violation again
         if lost:
             ctx.violation(dict(kind="impl-violation", oracle="await-protocol-delivers-the-latest-answer-of-every-target",
-                               theorem="C05_await_protocol_refuted (replace) / C05_await_protocol_delivers_all (merge)",
-                               lost_histories=lost, **(first_lost or {})), finding_key="F8")
+                               theorem="C05_await_protocol_delivers_all", lost_histories=lost, **(first_lost or {})),
+                          finding_key="F8")
+        else:
+            ctx.violation(dict(kind="correspondence-broken", correspondence="SelectSpec.v handle_process_results (merge) vs environment.rs",
+                               agree_merge=agree1, agree_replace=agree0, n=len(cases)), no_input=True)
     return fixed8
 
 
@@ -1170,7 +1174,7 @@ def run(ctx):
     corpus = corpus_cases()
     if corpus:
         runner.batch(corpus)
-    total = ctx.n(1500, 100000)
+    total = ctx.n(1500, 40000)
     done = 0
     twins_checked = twin_diffs = 0
     while done < total:
